@@ -57,11 +57,11 @@ func (g *gen) Add(name string, typs []types.Type) (string, error) {
 	if len(typs) != 2 {
 		return "", fmt.Errorf("%s expected two arguments", name)
 	}
-	_, b1, err := g.funcInChanOut(name, typs[0])
+	_, b1, err := g.funcInChanOut(name, typs[0], false)
 	if err != nil {
 		return "", err
 	}
-	b2, _, err := g.funcInChanOut(name, typs[1])
+	b2, _, err := g.funcInChanOut(name, typs[1], true)
 	if err != nil {
 		return "", err
 	}
@@ -71,7 +71,11 @@ func (g *gen) Add(name string, typs []types.Type) (string, error) {
 	return g.SetFuncName(name, typs...)
 }
 
-func (g *gen) funcInChanOut(name string, typ types.Type) (inTyp, outTyp types.Type, err error) {
+// funcInChanOut returns the parameter type and the element type of the resulting channel of a function.
+// The resulting channel is received from, so it cannot be send only.
+// The channel that results from the last function is passed to join as the element of a channel,
+// where channel types have to be identical, so recvOnly requires it to be a receive only channel.
+func (g *gen) funcInChanOut(name string, typ types.Type, recvOnly bool) (inTyp, outTyp types.Type, err error) {
 	sig, ok := typ.(*types.Signature)
 	if !ok {
 		return nil, nil, fmt.Errorf("%s is not a function: %s", name, typ)
@@ -89,16 +93,22 @@ func (g *gen) funcInChanOut(name string, typ types.Type) (inTyp, outTyp types.Ty
 	if !ok {
 		return nil, nil, fmt.Errorf("%s, the result, %s, is not of type chan", name, g.TypeString(resType))
 	}
+	if chanType.Dir() == types.SendOnly {
+		return nil, nil, fmt.Errorf("%s, the result, %s, is a send only channel, which cannot be received from", name, g.TypeString(resType))
+	}
+	if recvOnly && chanType.Dir() != types.RecvOnly {
+		return nil, nil, fmt.Errorf("%s, the result of the second function, %s, is not a receive only channel", name, g.TypeString(resType))
+	}
 	return params.At(0).Type(), chanType.Elem(), nil
 }
 
 func (g *gen) Generate(typs []types.Type) error {
 	name := g.GetFuncName(typs...)
-	a, b1, err := g.funcInChanOut(name, typs[0])
+	a, b1, err := g.funcInChanOut(name, typs[0], false)
 	if err != nil {
 		return err
 	}
-	_, c, err := g.funcInChanOut(name, typs[1])
+	_, c, err := g.funcInChanOut(name, typs[1], true)
 	if err != nil {
 		return err
 	}
